@@ -12,7 +12,23 @@ class FilePressureProfile(ArrayPressureProfile):
         read_arr = np.loadtxt(filename, usecols=int(usecols), skiprows=int(skiprows),delimiter=delimiter,dtype=np.float64
                               )
         super().__init__(read_arr*to_Pa,reverse=reverse)
+        self._file_keywords = dict(filename=filename, usecols=usecols,
+                                   skiprows=skiprows, units=units,
+                                   delimiter=delimiter, reverse=reverse)
 
+    def write(self, output):
+        pressure = super().write(output)
+        # the constructor keywords, so that the profile can be rebuilt
+        # from the file it was read from (None cannot be stored and is
+        # the default anyway)
+        for key, value in self._file_keywords.items():
+            if value is None:
+                continue
+            if isinstance(value, str):
+                pressure.write_string(key, value)
+            else:
+                pressure.write_scalar(key, value)
+        return pressure
 
     @classmethod
     def input_keywords(self):
